@@ -2,11 +2,12 @@
    Only statements + `exact`; proofs in Pass/BasicGatesProofs.v (generators),
    Pass/SynthProofs.v (per-bit lowering, gate-level simulation, interface maps),
    Pass/SynthStructure.v (naturality: emitted gate expressions = their values),
-   Pass/FlattenProofs.v (the synthesized block as a netlist under Sem.run).
+   Pass/FlattenProofs.v (the synthesized block as a netlist under Sem.run),
+   Pass/FlattenShape.v (the shape predicate holds of that netlist).
    `balg` = the gate algebra at bool; the generator expressions come from
    Gen/SynthGates.v, regenerated from /repo on every run. *)
 From Coq Require Import ZArith List Bool.
-From PyRTL Require Import Netlist.Sem Netlist.WFDefs Pass.BasicGates Pass.BasicGatesProofs Pass.Synth Pass.SynthProofs Pass.SynthStructure Pass.SynthHarness Pass.Flatten Pass.FlattenProofs.
+From PyRTL Require Import Netlist.Sem Netlist.WFDefs Pass.BasicGates Pass.BasicGatesProofs Pass.Synth Pass.SynthProofs Pass.SynthStructure Pass.SynthHarness Pass.Flatten Pass.FlattenProofs Pass.FlattenShape.
 Import ListNotations.
 Open Scope Z_scope.
 
@@ -203,6 +204,18 @@ Theorem C03_simulation_netlist : forall merge nl regmap memmap inss,
 Proof. intros merge nl regmap memmap inss H1 H2 H3. exact (flatten_simulation merge nl H1 H2 H3 regmap memmap inss). Qed.
 Print Assumptions C03_simulation_netlist.
 
+(* C03_shape as the boolean predicate: the synthesized netlist of EVERY well-formed
+   design satisfies SynthHarness.shapeb -- the very predicate py/checks/C03.py
+   evaluates on the dump of every real synthesized block: each net is a 1-bit
+   ~ & | ^ nand w r gate, a memory port, a single-index select off an Input vector
+   or off a read port's data, or a concat of 1-bit wires feeding only memory
+   ports / an Output vector (merged I/O); no + - * < > = x survives. *)
+Theorem C03_shape_netlist : forall merge nl,
+  ids_okb nl = true -> wfb nl = true -> synth_okb nl = true ->
+  shapeb merge (flatten merge nl) = true.
+Proof. intros merge nl H1 H2 H3. exact (flatten_shape merge nl (incb_inc 0 _ H1) H2 H3). Qed.
+Print Assumptions C03_shape_netlist.
+
 (* ---------------- interface maps keyed by the original objects ---------------- *)
 
 Theorem C03_maps_keyed_by_original : forall nl merge,
@@ -275,6 +288,14 @@ Example C03_example_trace :
      = [[3; 14; 5]; [2; 5; 2]; [0; 0; 0]; [0; 6; 0]].
 Proof. vm_compute. split; reflexivity. Qed.
 
+
+(* Sem.run of the flattened synthesized netlist: Outputs 7 and 10 on every cycle
+   are the original design's (cf. C03_example_trace) *)
+Example C03_example_flatten_trace :
+  map (fun v => map v [7; 10])
+      (fst (run (flatten true ex_nl) 0 (flat_state ex_nl (ginit ex_nl [] ex_mem)) (map (flat_ins ex_nl) ex_ins)))
+  = [[3; 14]; [2; 5]; [0; 0]; [0; 6]].
+Proof. vm_compute. reflexivity. Qed.
 
 Example C03_example_sub : to_Z (basic_sub balg (of_Z 3 0) (of_Z 3 0)) = 0
   /\ to_Z (basic_sub balg (of_Z 3 2) (of_Z 3 5)) = 13.
